@@ -23,7 +23,9 @@ RULE = ('case = (value spec, column type or "all 21 type objects"); value specs 
         'pending/censored/unmarshallable/stub objects, Records and RecordSets of a live engine, deep nesting. '
         'Type objects are the type_obj of real engine columns (Text, Numeric, Int, Bool, Date, DateTime in 3 zones, '
         'Choice, ChoiceList, Ref and RefList to the own and to another table, Attachments, Any, Id, PositionNumber, '
-        'ManualSortPos). One evaluation = one (value, type) pair. Non-trivial = the conversion changed the '
+        'ManualSortPos). An enumerated part additionally runs a fixed gallery of 170 specimens (every shape and '
+        'boundary) bare and wrapped in list/tuple (more wrappers in thorough), strings also as AltText and bytes, '
+        'against all type objects. One evaluation = one (value, type) pair. Non-trivial = the conversion changed the '
         'value (result is not the input and not equal to it) or fell back to alt text; distinct by (case).')
 ORACLE = ('contract predicate: convert(v) raises nothing; if v is a RaisedException the result is v itself; '
           'otherwise is_right_type(result) or result is a str/AltText; second = convert(result) must equal '
@@ -199,6 +201,16 @@ def run_case(case):
   out.cls(*['in:' + k for k in sorted(pyvals.all_kinds(spec))])
   out['concrete'] = {'value': pyvals.short(v), 'types': [n for n, _ in sel]}
   return out
+
+
+def enumerate_cases(tier):
+  wrappers = ['id', 'list', 'tuple'] if tier == 'quick' else ['id', 'list', 'tuple', 'dictval', 'set', 'sublist', 'pair']
+  for spec in pyvals.gallery('convert'):
+    for w in wrappers:
+      yield {'v': pyvals.wrap(spec, w), 't': None}
+    if isinstance(spec, str):
+      yield {'v': {'k': 'alt', 'v': spec}, 't': None}
+      yield {'v': {'k': 'bytes', 'v': spec if all(ord(c) < 256 for c in spec) else 'x'}, 't': None}
 
 
 def strategy(tier):
